@@ -1406,6 +1406,21 @@ class Interp:
                         self.range_count = None
                     return ("iter", dst, sp.expand(o0 + n_el))
                 raise Unsupported("adjacent_difference on unsupported ranges (line %s)" % e.get("line"))
+            if nm == "accumulate" and len(args) == 3:
+                first, last = self.ev(args[0], env), self.ev(args[1], env)
+                init = self.ev(args[2], env)
+                if all(isinstance(x, tuple) and x[0] == "iter" for x in (first, last)) and first[1] is last[1] and first[1].kind == "scal" and isinstance(init, sp.Basic):
+                    src = first[1]
+                    a0, a1 = self.iter_offset(first), self.iter_offset(last)
+                    cnt = sp.expand(a1 - a0)
+                    self.range_count = cnt
+                    try:
+                        self.log_event("read", src, (sp.expand(a0 + RSYM),))
+                    finally:
+                        self.range_count = None
+                    # init + sum of the run, summed left to right (the order only matters for rounding)
+                    return init + sp.Function("rangesum")(S(src.tag()), sp.expand(a0), cnt)
+                raise Unsupported("accumulate on unsupported ranges (line %s)" % e.get("line"))
             if nm == "partial_sum" and len(args) == 3:
                 first, last, out = (self.ev(a, env) for a in args)
                 if all(isinstance(x, tuple) and x[0] == "iter" for x in (first, last, out)) and first[1] is last[1] and first[1].kind == "scal" and out[1].kind == "scal" and out[1] is not first[1]:
